@@ -65,8 +65,20 @@ def run_property(prop, tier, write=True):
         total.merge(rep)
     extra = {}
     if tier == "thorough":
-        from . import mutants
-        extra = mutants.replay(prop, mod)
+        from . import mutants, witness
+        wp = getattr(mod, "WITNESS", None)
+        if wp:
+            wres, werr = witness.run(wp)
+            if werr:
+                raise extract.InfraError(werr)
+            rep = Report(prop, "witness")
+            for name, ok in sorted(wres.items()):
+                rep.check(ok, "E3", "E3|%s" % name.split(" (line")[0].replace("src/lib.rs - ", "") + "|" + ("compile-fail" if "compile fail" in name else "twin"),
+                          "type-level witness %s: %s" % (name, "holds" if ok else "NO LONGER holds (the offending program type-checks, or its twin stopped compiling)"))
+            rep.floor("E3", "witness doc-tests run for %s" % ",".join(wp), len(wres), 2)
+            total.merge(rep)
+            extra["witnesses"] = {k: v for k, v in wres.items()}
+        extra.update(mutants.replay(prop, mod))
     # known findings
     known = [k for k in load_known() if k.get("property") == prop and k.get("status") == "known"]
     known_keys = {k["key"]: k for k in known}
